@@ -147,7 +147,16 @@ def run_sim(chk, wd, scns, trace_module, *, label="sim", shards=12, sig_of=None,
     if not scns:
         return 0
     # executor schedules: which of several woken tasks is polled next (lowest index first is the default)
-    pols = schedules if schedules is not None else [p for p in os.environ.get("VERIF_SCHEDS", "").split(",") if p]
+    if schedules is not None:
+        pols = schedules
+    elif os.environ.get("VERIF_SCHEDS") is not None:
+        pols = [p for p in os.environ["VERIF_SCHEDS"].split(",") if p]
+    elif getattr(chk, "tier", "quick") == "quick":
+        pols = ["hi"] if len(scns) <= 3000 else []
+    else:
+        pols = ["hi", f"rand:{vlib.seed()}", f"rand:{vlib.seed() + 1}"] if len(scns) <= 50000 else ["hi"]
+    if runner == "sim" and hasattr(chk, "notes"):
+        chk.notes.setdefault("executor_schedules", {})[label] = ["lo"] + list(pols)
     if pols and runner == "sim":
         extra = []
         for pol in pols:
@@ -156,6 +165,18 @@ def run_sim(chk, wd, scns, trace_module, *, label="sim", shards=12, sig_of=None,
                 s1["cfg"] = dict(s0.get("cfg") or {}, sched=pol)
                 s1["id"] = f"{s0['id']}@{pol}"
                 extra.append(s1)
+        scns = list(scns) + extra
+    # exploration aid: deliver everything before the endpoint runs (events pile up between polls)
+    if os.environ.get("VERIF_BATCH") and runner == "sim":
+        extra = []
+        for s0 in scns:
+            st = s0.get("steps") or []
+            if len(st) < 2 or s0.get("role") == "pair":
+                continue
+            s1 = dict(s0)
+            s1["steps"] = [dict(x, no_run=True) for x in st[:-1]] + [st[-1]]
+            s1["id"] = f"{s0['id']}@batch"
+            extra.append(s1)
         scns = list(scns) + extra
     shards = max(1, min(shards, (len(scns) + 199) // 200))
     parts = [scns[i::shards] for i in range(shards)]
